@@ -204,6 +204,40 @@ def run_multi(case):
     return lines, fail
 
 
+def reset_independence(iterable_ports=False):
+    """The reset messages of one closing port belong to whoever receives them: changing them must not change what the next
+    autoreset close sends.  With iterable_ports: a MultiPort built from a one-shot iterable of ports keeps its ports."""
+    import mido.ports as P
+    if iterable_ports:
+        kids = [P.EchoPort(), P.EchoPort()]
+        mp = P.MultiPort(k for k in kids)
+        for rnd in range(3):
+            kids[rnd % 2].send(portsim.msg_of(40 + rnd))
+            m = mp.poll()
+            if m is None or portsim.ident(m) != 40 + rnd:
+                return f'MultiPort built from a generator of ports: poll() in round {rnd} gave {m!r} with a message pending in a child'
+        mp.send(portsim.msg_of(50))
+        if [portsim.ident(k.poll()) for k in kids] != [50, 50]:
+            return 'MultiPort built from a generator of ports: send() did not reach the child ports'
+        return None
+    want = [1000 + i for i in range(32)]
+    seen = []
+    for rnd in range(3):
+        p = P.EchoPort(autoreset=True)
+        p.close()
+        got = list(p.iter_pending())
+        ids = [portsim.ident(m) for m in got]
+        if ids != want or any(m.time != 0 for m in got):
+            return f'autoreset close number {rnd + 1} sent {ids[:6]}... (times {[m.time for m in got][:4]}) instead of the 32 reset messages'
+        if any(any(m is o for o in seen) for m in got):
+            return 'two closing ports handed out the very same message objects'
+        seen += got
+        for m in got:                      # the receiver does what it likes with what it received
+            m.channel = (m.channel + 5) % 16
+            m.time = 9
+    return None
+
+
 def concurrent_case(kind, action):
     """Two real threads: one waits in a blocking receive() / a for-loop on an idle port, the other closes the port or
     makes a message deliverable.  The waiting call must end promptly (2 s watchdog)."""
@@ -398,6 +432,12 @@ def run(ck):
     model = ck.driver.run(reqs)
     _mask_hang_sleeps(reqs, impl, model, 'lreset')
     ck.compare('ports_seq', reqs, impl, model)
+    for flag in (False, True):
+        ck.evaluations += 1
+        ck.count('reset_independence')
+        f = reset_independence(flag)
+        if f:
+            ck.oracle_fail({'reset_independence': flag}, f)
     for kind in ('dev', 'echo', 'multi'):
         for action in ('receive_close', 'iter_close', 'receive_send', 'iter_send'):
             if kind == 'echo' and action.startswith('iter'):
@@ -433,6 +473,8 @@ def run(ck):
 
 
 def oracle(case):
+    if 'reset_independence' in case:
+        return reset_independence(case['reset_independence'])
     if 'two_threads' in case:
         return concurrent_case(*case['two_threads'])
     if 'multi' in case:
